@@ -84,16 +84,18 @@ def isLam : Expr → Bool
 abbrev KV := List (String × Expr)
 
 namespace KV
-def get (d : KV) (k : String) : Option Expr := List.lookup k d
-def has (d : KV) (k : String) : Bool := (List.lookup k d).isSome
+def get : KV → String → Option Expr
+  | [], _ => none
+  | (k', v') :: r, k => if k = k' then some v' else get r k
+def has (d : KV) (k : String) : Bool := (d.get k).isSome
 def keys (d : KV) : List String := d.map (·.1)
 /-- `d[k] = v`: overwrite in place or append -/
 def put : KV → String → Expr → KV
   | [], k, v => [(k, v)]
-  | (k', v') :: r, k, v => if k == k' then (k, v) :: r else (k', v') :: put r k v
+  | (k', v') :: r, k, v => if k = k' then (k, v) :: r else (k', v') :: put r k v
 def erase : KV → String → KV
   | [], _ => []
-  | (k', v') :: r, k => if k == k' then r else (k', v') :: erase r k
+  | (k', v') :: r, k => if k = k' then r else (k', v') :: erase r k
 end KV
 
 structure Scope where
@@ -586,7 +588,7 @@ def run (fuel : Nat) (es : List Expr) : M Expr := eval fuel (.prog es)
 
 /-! ## reference semantics: substitution -/
 
-def bound (σ : KV) (k : String) : Option Expr := List.lookup k σ
+def bound (σ : KV) (k : String) : Option Expr := σ.get k
 
 mutual
 /-- replace the parameters by the argument values; a nested function literal rebinds x, y, z
